@@ -448,6 +448,7 @@ func runC09(p *core.Prog, r *core.Report) {
 		if builder == nil {
 			r.Fail("C09-R3", "Value builder", "-", "no function converts reflect Addr().Interface() into a Value")
 		} else {
+			builder = p.Inl(builder) // a helper holding the type switch is seen in place
 			okAll, n := true, 0
 			why := ""
 			sx.Instrs(builder, func(in ssa.Instruction) {
@@ -572,8 +573,14 @@ func runC09(p *core.Prog, r *core.Report) {
 				org := sx.Origins(b.X)
 				okSrc := false
 				for o := range org {
-					if strings.Contains(o, "stringValue") || strings.Contains(o, "valueConfigPath") {
+					if strings.Contains(o, "stringValue") {
 						okSrc = true
+					}
+					// the string-kinded Value field of the FlagSet that backs the built-in -config flag (whatever it is called)
+					for _, f := range structFields(c.FlagSet) {
+						if bt, isB := f.Type().Underlying().(*types.Basic); isB && bt.Kind() == types.String && o == "field:"+c.FlagSet.Obj().Name()+"."+f.Name() {
+							okSrc = true
+						}
 					}
 				}
 				if !okSrc {
